@@ -700,6 +700,9 @@ def search(ck, seeds=None):
         S.one(smi, rng, n_renum=4, n_spell=3, n_rdkit=4)
     for smi in COORD:
         S.one(smi, rng, n_renum=6, n_spell=6, n_rdkit=2)
+    # several equal stereo elements: the stereo refinement decides the string (renumberings and spellings at volume)
+    for smi in STEREO_TIES:
+        S.one(smi, rng, n_renum=8, n_spell=6, n_rdkit=2)
     # charges -1 / -2 on otherwise equal atoms: reached deterministically (the reversed numbering of the molecule as read)
     from chython import smiles as _sm
     for smi in CHARGE_TIE:
@@ -1101,6 +1104,16 @@ STEREO_TIES = [
     'C[C@H](N)C(=O)N[C@@H](C)C(=O)O', 'OC[C@H](O)[C@@H](O)[C@H](O)[C@H](O)CO', 'OC[C@H](O)[C@@H](O)[C@@H](O)[C@H](O)CO',
     'C/C=C/[C@H](C)/C=C/C', 'C/C=C/[C@H](C)/C=C\\C', 'C/C=C/[C@@H](O)[C@H](O)/C=C/C', 'C(=C/C)(/C=C/C)/C=C\\C',
 ]
+# pairs of constitutionally equivalent stereo double bonds / allenes whose ends carry TWO non-hydrogen substituents (tri- and
+# tetrasubstituted): the sign of each member is taken relative to the substituent of lowest Morgan class on both ends
+# (min(n1, n2, key=morgan.get), min(m1, m2, key=morgan.get)), which is not the substituent of lowest number; like and unlike pairs
+EZ_TIES = [
+    'C/C=C(/F)CC/C(F)=C\\C', 'C/C=C(/F)CC/C(F)=C/C', 'C/C=C(\\F)CC/C(F)=C\\C', 'C/C(Cl)=C(/F)CC/C(F)=C(\\C)Cl', 'C/C(Cl)=C(/F)CC/C(F)=C(/C)Cl',
+    'F/C(C)=C/CC/C=C(\\F)C', 'F/C(C)=C/CC/C=C(/F)C', 'C/C=C(/F)C(C)(C)/C(F)=C\\C', 'C/C=C(/Cl)CCCC/C(Cl)=C\\C', 'CC/C(C)=C(/F)CC/C(F)=C(\\C)CC',
+    'C/C=C(/F)O/C(F)=C\\C', 'N/C(O)=C(/F)CC/C(F)=C(\\N)O', 'N/C(O)=C(/F)CC/C(F)=C(/N)O', 'CC(F)=[C@]=CCCC=[C@@]=C(C)F', 'CC(F)=[C@]=CCCC=[C@]=C(C)F',
+    'C/C=C(/F)C/C=C/C/C(F)=C\\C', 'C/C=C(/F)c1ccc(cc1)/C(F)=C\\C', 'C/C=C(/F)CC/C(F)=C\\C.C/C=C(/F)CC/C(F)=C/C',
+]
+STEREO_TIES = STEREO_TIES + EZ_TIES
 
 
 def cstr(text):
@@ -1433,7 +1446,7 @@ def directed(ck, bad, suspects):
     for smi in seeds:
         if smi not in seen:
             seen.append(smi)
-    for smi in seen[:40] + SPECIAL + COORD:
+    for smi in seen[:40] + SPECIAL + COORD + EZ_TIES:
         S.one(smi, rng, n_renum=12, n_spell=6, n_rdkit=4)
     for smi in corpus.sample(corpus.lipo(), 200, ck.seed, 'c01-directed'):
         S.one(smi, rng, n_renum=4, n_spell=2, n_rdkit=2)
